@@ -6,6 +6,8 @@ numbering.  The model (`Model/Assembly.lean`) transcribes `_Get_assembly_e`, `Ge
 values). Theorems hold for any number of groups, elements, nodes per element, dofs per
 node, and values in any additive monoid.
 -/
+import EasyFEAVerif.Gen.C03.Forms
+import Mathlib.Tactic.NormNum
 import EasyFEAVerif.Core.AssemblySound
 
 namespace EasyFEAVerif.Props.C03
@@ -155,5 +157,54 @@ def demo : List (ElemGroup Int) :=
 
 example : (assembleCsr true 1 4 demo).get 1 2 = 6 + 30 ∧ (assembleCsr true 1 4 demo).get 3 0 = 0
     ∧ (assembleCsr true 1 4 demo).get 2 2 = 9 + 90 := by decide
+
+/-! ### machine integers: the statements of `_Get_assembly_e` and `__Get_csr_map` compute in int64 (Gen/C03/Forms.lean);
+the model computes in ℕ. A `w`-bit computation returns the value modulo `2^w`. -/
+
+/-- a dof number computed in `w` bits is the model's dof number as soon as it fits -/
+theorem dof_exact_if_fits (w node dofN d : Nat) (h : node * dofN + d < 2 ^ w) : (node * dofN + d) % 2 ^ w = node * dofN + d :=
+  Nat.mod_eq_of_lt h
+
+/-- every dof number of a system scipy can index (`Ndof ≤ 2^31`, 32-bit index arrays) fits in the 63 value bits of int64 -/
+theorem dof_fits_int64 (ndof node dofN d : Nat) (hsys : ndof ≤ 2 ^ 31) (hd : node * dofN + d < ndof) : node * dofN + d < 2 ^ 63 := by
+  have : (2 : Nat) ^ 31 < 2 ^ 63 := by norm_num
+  omega
+
+/-- the linear key `row * ncol + col` of `__Get_csr_map` fits in int64 for every such system -/
+theorem key_fits_int64 (ndof r c : Nat) (hsys : ndof ≤ 2 ^ 31) (hr : r < ndof) (hc : c < ndof) : r * ndof + c < 2 ^ 63 := by
+  have h1 : r * ndof ≤ 2 ^ 31 * 2 ^ 31 := Nat.mul_le_mul (by omega) hsys
+  have h2 : (2 : Nat) ^ 31 * 2 ^ 31 + 2 ^ 31 < 2 ^ 63 := by norm_num
+  omega
+
+/-- the key determines the coefficient: no two entries of the matrix share a key (no wrap-around, hence no misplacement) -/
+theorem key_injective (ndof r c r' c' : Nat) (hc : c < ndof) (hc' : c' < ndof) (h : r * ndof + c = r' * ndof + c') : r = r' ∧ c = c' := by
+  have hpos : 0 < ndof := by omega
+  have e1 : (r * ndof + c) / ndof = r := by
+    rw [Nat.mul_comm, Nat.mul_add_div hpos, Nat.div_eq_of_lt hc, Nat.add_zero]
+  have e2 : (r' * ndof + c') / ndof = r' := by
+    rw [Nat.mul_comm, Nat.mul_add_div hpos, Nat.div_eq_of_lt hc', Nat.add_zero]
+  have hr : r = r' := by rw [← e1, ← e2, h]
+  subst hr
+  exact ⟨rfl, by omega⟩
+
+/-- the dof numbering is injective on (node, component) -/
+theorem dof_injective (dofN n d n' d' : Nat) (hd : d < dofN) (hd' : d' < dofN) (h : n * dofN + d = n' * dofN + d') : n = n' ∧ d = d' :=
+  key_injective dofN n d n' d' hd hd' h
+
+/-- before the `fix:` commit 5f55a2c the dof numbers were computed in the integer type of the connectivity. In 16 bits
+(uint16 connectivity, 25921 nodes, 3 dofs per node) two different (node, component) pairs get the same number: entries of
+different rows are added together -/
+theorem uint16_dof_numbers_collide :
+    (25920 * 3 + 0) % 2 ^ 16 = (4074 * 3 + 2) % 2 ^ 16 ∧ (25920, 0) ≠ (4074, 2) ∧ 25920 < 25921 ∧ 25920 < 2 ^ 16 := by
+  decide
+
+/-- seed C03_F (dof numbers and keys in int32): for Ndof = 51842 the key of an entry of row 41424 exceeds 2^31 -/
+theorem int32_key_overflows : 41424 * 51842 + 0 ≥ 2 ^ 31 ∧ 41424 < 51842 ∧ 51842 ≤ 2 ^ 31 := by decide
+
+/-- the statements the model and the theorems below were written from (regenerated on every run) -/
+theorem assemblyForms_spec : (EasyFEAVerif.Gen.C03.assemblyForms.map Prod.fst) = ["_Get_assembly_e", "Get_rows_e", "Get_columns_e", "__Get_csr_map"] ∧
+    (EasyFEAVerif.Gen.C03.assemblyForms.lookup "_Get_assembly_e").map (fun l => l.contains "connect = np.asarray(connect, dtype=np.int64)" && l.contains "assembly = np.zeros((Ne, ndof), dtype=np.int64)") = some true ∧
+    (EasyFEAVerif.Gen.C03.assemblyForms.lookup "__Get_csr_map").map (fun l => l.contains "inv = np.searchsorted(canon, rows.astype(np.int64) * ncol + cols).astype(np.int32)") = some true := by
+  decide
 
 end EasyFEAVerif.Props.C03
